@@ -23,7 +23,7 @@ func init() {
 		LevelText:   "Structural clauses decided for all paths: at each of the three ingest sites no message reaches the batch on an encrypted stream without its Value having been replaced by the result of a successful Seal; the subscribe loop delivers the result of a successful Read on encrypted streams; every index/slice on stored (tamperable) bytes in Read/decryptData is proven in bounds; the GCM nonce is fresh crypto/rand output of NonceSize bytes and Open's error is propagated. Confidentiality of byte strings and cryptographic strength are not decided.",
 		LevelNote:   "Trusted: go/ssa, crypto/aes, crypto/cipher and tink's key wrap; the tamper model is 'any stored byte may change'.",
 		DesignRef:   "DESIGN.md §4 C17",
-		Explanation: "R17.1 seal-before-store at the ingest sites of messageProcessingLoop, R17.2 open-before-deliver in the subscribe loop, R17.3 bounds on stored bytes in LocalEncryptionHandler.Read/decryptData/unwrapDEK, R17.4 nonce / key hygiene and error propagation, R17.5 every partition of an encrypted stream gets its handler and nothing replaces it, R16.8 (shared) encryption setting plumbing. R17.4 also requires Read to cut the stored form by its length byte so that every stored byte is integrity-checked; R15.8 (shared) streams.encryption reaches its Config field. NOT decided: that stored bytes never contain the plaintext, cryptographic strength.",
+		Explanation: "R17.5 also: CreateStream records the encryption decision in the stream's configuration on every path to the proposal (F73); R17.4 also: nothing on the read path writes handler state that is not behind a successful key unwrap. R17.1 seal-before-store at the ingest sites of messageProcessingLoop, R17.2 open-before-deliver in the subscribe loop, R17.3 bounds on stored bytes in LocalEncryptionHandler.Read/decryptData/unwrapDEK, R17.4 nonce / key hygiene and error propagation, R17.5 every partition of an encrypted stream gets its handler and nothing replaces it, R16.8 (shared) encryption setting plumbing. R17.4 also requires Read to cut the stored form by its length byte so that every stored byte is integrity-checked; R15.8 (shared) streams.encryption reaches its Config field. NOT decided: that stored bytes never contain the plaintext, cryptographic strength.",
 	})
 }
 
@@ -208,6 +208,7 @@ func runC17(c *eng.Ctx) {
 
 	// ---- R17.5 every partition of an encrypted stream has its handler, whatever its other state (paused, recovered, read-only)
 	c.Rule("R17.5", "K2")
+	ruleEncryptionDecisionIsRecorded(c)
 	if fn := c.Fn("server.(*Server).newPartition"); fn != nil {
 		hf := p.Field("server", "partition", "encryptionHandler")
 		enc := eng.BoolEdges(fn, eng.LoadNamed("Encryption", nil), true)
@@ -335,6 +336,65 @@ func runC17(c *eng.Ctx) {
 				}
 			}
 		}
+	}
+	// reading leaves no trace in the handler unless the stored form was verified: whatever Read (or the two steps it is made
+	// of) remembers in the handler — an unwrapped key kept for the next call, the wrapped bytes it belongs to — is stored only
+	// behind the unwrap's err == nil. A tag remembered before the check makes the NEXT read of the same tampered bytes succeed.
+	{
+		nStores, bad, badPos := 0, "", ""
+		var readPath []*ssa.Function
+		if rd := c.FnQuiet("server/encryption.(*LocalEncryptionHandler).Read"); rd != nil {
+			readPath = moduleReach(c, rd, 4)
+		}
+		for _, fn := range readPath {
+			if fn.Signature.Recv() == nil || len(fn.Params) == 0 || fn.Pkg == nil || ir.Short(fn.Pkg.Pkg.Path()) != "server/encryption" {
+				continue
+			}
+			recv := fn.Params[0]
+			var okEdges []eng.Edge
+			for _, cs := range eng.CallsIn(fn, "server/encryption.LocalEncryptionHandler.unwrapDEK") {
+				cc, isCall := cs.(*ssa.Call)
+				if !isCall {
+					continue
+				}
+				okEdges = append(okEdges, eng.CmpEdges(fn, func(x ssa.Value) bool { y, ok := x.(*ssa.Extract); return ok && y.Tuple == cc && y.Index == 1 }, eng.NilConst, eng.EQ)...)
+			}
+			eng.Instrs(fn, func(in ssa.Instruction) {
+				var addr ssa.Value
+				switch x := in.(type) {
+				case *ssa.Store:
+					addr = x.Addr
+				case *ssa.MapUpdate:
+					addr = x.Map
+				default:
+					return
+				}
+				// is the written location reached from the receiver?
+				root := addr
+				for i := 0; i < 6; i++ {
+					switch y := root.(type) {
+					case *ssa.FieldAddr:
+						root = y.X
+						continue
+					case *ssa.IndexAddr:
+						root = y.X
+						continue
+					case *ssa.UnOp:
+						root = y.X
+						continue
+					}
+					break
+				}
+				if eng.Strip(root) != ssa.Value(recv) {
+					return
+				}
+				nStores++
+				if g, _ := eng.GuardedBy(fn, in, okEdges); !g || len(okEdges) == 0 {
+					bad, badPos = ir.FuncKey(fn), c.Pos(in)
+				}
+			})
+		}
+		c.Check(bad == "", "reading remembers nothing about an unverified stored form", badPos, fmt.Sprintf("%d store(s) into the handler on the read path, each behind a successful unwrap", nStores), bad+" writes handler state that is not behind the key unwrap's err == nil: what a failed (tampered, wrong-key) read leaves behind can make a later read of the same bytes succeed")
 	}
 	if fn := c.Fn("server/encryption.(*LocalEncryptionHandler).Read"); fn != nil && len(fn.Params) == 2 {
 		// every stored byte takes part in an integrity-checked step: byte 0 fixes the split, [1:split] is unwrapped (KWP
